@@ -514,7 +514,7 @@ func execWorkspaceMeta(t *core.Trace) *core.Result {
 	var ferr error
 	if pk, pv, loc, _ := core.Guard(func() {
 		if wl == "squashfs" {
-			comp := []squashfs.Compressor{&squashfs.CompressorGzip{}, &squashfs.CompressorXz{}, &squashfs.CompressorLz4{}, &squashfs.CompressorZstd{}}[t.I("sqcomp")%4]
+			comp := []squashfs.Compressor{&squashfs.CompressorGzip{CompressionLevel: 6}, &squashfs.CompressorXz{}, &squashfs.CompressorLz4{}, &squashfs.CompressorZstd{}}[t.I("sqcomp")%4]
 			ferr = sq.Finalize(squashfs.FinalizeOptions{Compression: comp})
 		} else {
 			ferr = iso.Finalize(iso9660.FinalizeOptions{RockRidge: true})
